@@ -1,10 +1,11 @@
 ----------------------------- MODULE WorldC12 -------------------------------
 (* World for C12: one directory holding a file for every name of length 1..2 *)
 (* over an alphabet with both letter cases, a digit, space and every regex   *)
-(* metacharacter that can occur in a file name.                              *)
+(* metacharacter that can occur in a file name, and a line feed (`.` of a     *)
+(* regular expression does not match it unless told to).                    *)
 EXTENDS Chars, Integers
 
-Alpha == <<"a", "B", "1", " ", ".", "+", "(", ")", "[", "]", "{", "}", "|", "^", "$", "-", ",", "'", "#", "~">>
+Alpha == <<"a", "B", "1", " ", ".", "+", "(", ")", "[", "]", "{", "}", "|", "^", "$", "-", ",", "'", "#", "~", "\n">>
 NA == Len(Alpha)
 NameAt(i) == IF i <= NA THEN (IF Alpha[i] = "." THEN <<"a", "a", "a">> ELSE <<Alpha[i]>>)
              ELSE LET x == Alpha[(i - NA - 1) \div NA + 1]  y == Alpha[((i - NA - 1) % NA) + 1]
